@@ -339,7 +339,7 @@ func c15Between(l, r c15Nb, stretch string) []c15Tok {
 
 var c15Words = []string{"a", "b", "/", "a/", "/b", "*", "<", ">", "<b>", "</b>", "\u00e9", "\u00a0", "\u2003", "\u0085", "x/y", "2*3", "http://x", "a:b", "a//b", "&", "'", "\"", "\U0001F600", "\v", "-", "."}
 var c15Spaces = []string{" ", "  ", "\t", "\n", "\r\n", "\r", " \n ", "\n\n", "\n\t", " \r\n  "}
-var c15Comments = []string{"//c\n", "// c d\r\n", "//\n", "// /* x */\n", "//c\r", "/*c*/", "/* c\n d */", "/* // */", "/*{x}*/", "/* * / */", "/*\n*/", "/**/"}
+var c15Comments = []string{"//c\n", "// c d\r\n", "//\n", "// /* x */\n", "//c\r", "/*c*/", "/* c\n d */", "/* // */", "/*{x}*/", "/* * / */", "/*\n*/", "/**/", "/*/ hidden */", "/*//// banner ////*/", "/*/*/", "/***/", "/* a **/", "/*/ x /**/"}
 var c15Literals = []string{"", " x ", "a\n b", "{$q}", "// not a comment\n", "/* c */", "{sp}", "  ", "\n", "<b> {", "\u00e9\u00a0\n", "}{", "\t\r\n"}
 
 func c15RandStretch(r *hx.Rand) string {
@@ -501,9 +501,9 @@ func c15Templates(e *env) {
 		}
 	}
 	// comment placements around a text, between a few neighbour pairs
-	cl := []string{"", " //c\n", "\n// c\n", "/*c*/", " /**/", " /* c\n c */ ", "//after-a-tag\n"}
-	cr := []string{"", " //c\n", " //c\r\n", "\n//c\r", "/*c*/", "/**/ ", " /* // */ ", "\t// {$y} /* x\n"}
-	mids := []string{"a", " a ", "\na\n", " a\n b ", "a /*in*/ b", "a //in\n b", "a\n//in\nb", "http://x //c\n", "<\n", " ", "\n", "", "\u00a0\n"}
+	cl := []string{"", "/*/ h */", " //c\n", "\n// c\n", "/*c*/", " /**/", " /* c\n c */ ", "//after-a-tag\n"}
+	cr := []string{"", " /*/ h {$y} */", " //c\n", " //c\r\n", "\n//c\r", "/*c*/", "/**/ ", " /* // */ ", "\t// {$y} /* x\n"}
+	mids := []string{"a", " a ", "\na\n", " a\n b ", "a /*in*/ b", "a/*/ in */b", "a //in\n b", "a\n//in\nb", "http://x //c\n", "<\n", " ", "\n", "", "\u00a0\n"}
 	pairs := [][2]int{{0, 0}, {1, 1}, {5, 5}, {6, 12}, {12, 6}, {2, 3}, {13, 1}, {7, 7}}
 	for _, p := range pairs {
 		for _, a := range cl {
